@@ -2,7 +2,8 @@ import struct
 import numpy as np
 
 from .read import SgzReader
-from .utils import pad, int_to_bytes, np_float_to_bytes, np_float_to_bytes_signed, coord_to_index
+from .utils import (pad, int_to_bytes, np_float_to_bytes, np_float_to_bytes_signed, coord_to_index,
+                    bytes_to_double, double_to_bytes)
 from .sgzconstants import DISK_BLOCK_BYTES, SEGY_TEXT_HEADER_BYTES
 from .version import SeismicZfpVersion
 
@@ -82,7 +83,14 @@ class SgzCropper(SgzReader):
         header[4:8] = int_to_bytes(len_zslices)
         header[8:12] = int_to_bytes(len_xlines)
         header[12:16] = int_to_bytes(len_ilines)
-        header[16:20] = np_float_to_bytes_signed(np.int32(self.zslices[zslices_index_range[0]]))
+        first_sample = float(self.zslices[zslices_index_range[0]])
+        header[16:20] = np_float_to_bytes_signed(np.int32(first_sample))
+        if bytes_to_double(self.headerbytes[92:100]) != 0 or first_sample != np.floor(first_sample):
+            # The integer field holds whole milliseconds only. A crop which does not start on one (or a source which
+            # already uses them) records the sample axis in the double-precision fields, which readers prefer
+            header[84:92] = double_to_bytes(first_sample)
+            if bytes_to_double(self.headerbytes[92:100]) == 0:
+                header[92:100] = double_to_bytes(1000.0 * float(self.zslices[1] - self.zslices[0]))
         header[20:24] = np_float_to_bytes_signed(np.int32(self.xlines[xline_index_range[0]]))
         header[24:28] = np_float_to_bytes_signed(np.int32(self.ilines[iline_index_range[0]]))
         header[56:60] = int_to_bytes(compressed_data_length_diskblocks)
